@@ -117,6 +117,10 @@ void ReaderFull(R* r) {
   Unbounded<External>* us = nullptr;
   UnboundedSmall<int>* usi = nullptr;
   UnboundedSmall<External>* use = nullptr;
+  UnboundedSigned<int>* ugi = nullptr;
+  UnboundedSigned<External>* uge = nullptr;
+  ReadWith(r, ugi);
+  ReadWith(r, uge);
   ReadWith(r, ub);
   ReadWith(r, us);
   ReadWith(r, usi);
